@@ -216,6 +216,10 @@ def parse_extract_args(line):
             opts["nth"] = int(w[4:])
         elif w.startswith("vis="):
             opts["vis"] = w[4:]
+        elif w.startswith("consts="):
+            opts["consts"] = [x for x in w[7:].split(",") if x]
+        elif w.startswith("cprefix="):
+            opts["cprefix"] = [x for x in w[8:].split(",") if x]
         elif w.startswith("bools="):
             opts["bools"] = [x for x in w[6:].split(",") if x]
         elif w.startswith("rewrite="):
@@ -254,7 +258,10 @@ def extract_real(file_, kind, name, opts):
     except ItemError as ex:
         raise UnitError("anchor lost: %s in %s: %s" % (name, file_, ex))
     item = toks[s:e]
-    n = Normaliser(bools=opts["bools"], vis=opts.get("vis", "pub"))
+    from .norm import CONSTS, CONST_PREFIX
+    n = Normaliser(bools=opts["bools"], vis=opts.get("vis", "pub"),
+                   consts=(set(CONSTS) | set(opts["consts"])) if opts.get("consts") else None,
+                   const_prefix=(set(CONST_PREFIX) | set(opts["cprefix"])) if opts.get("cprefix") else None)
     try:
         real = n.run(kind, item, opts["rewrites"])
     except (NormError, TokError, IndexError, AssertionError) as ex:
